@@ -84,6 +84,61 @@ def layout_s(need_origin=False, small_padding=False):
     return build()
 
 
+_OFFSETS = {}
+
+
+def hash_offsets(kind="point"):
+    """Integer (dx, dy) such that two Points / Stretches that differ by it have the same hash -
+    found by probing the library's own __hash__ as a black box (empty when there is none in
+    range).  Distinct values with equal hashes are legitimate; code that takes the hash for the
+    identity of a layout is not."""
+    if kind not in _OFFSETS:
+        from pycaption.geometry import Point, Size, Stretch, UnitEnum
+        cls = Point if kind == "point" else Stretch
+
+        def mk(x, y):
+            return cls(Size(x, UnitEnum.PERCENT), Size(y, UnitEnum.PERCENT))
+        offs = []
+        for bx, by in ((50, 50), (0, 100), (100, 0), (0, 0), (100, 100)):
+            h = hash(mk(bx, by))
+            for x in range(0, 101):
+                for y in range(0, 101):
+                    if (x, y) != (bx, by) and hash(mk(x, y)) == h and [x - bx, y - by] not in offs:
+                        offs.append([x - bx, y - by])
+        _OFFSETS[kind] = offs
+    return _OFFSETS[kind]
+
+
+def twin_layouts(draw, base):
+    """Layouts that are easily confused with `base`: same hash of a component, or the same
+    numbers in another component."""
+    import json as _json
+    twins = []
+    kind = draw(st.sampled_from(["hash-origin", "hash-extent", "swap", "swap"]))
+    if kind == "swap":
+        # an origin-only layout and an extent-only layout with the same two numbers
+        nums = base.get("origin") or base.get("extent") or [[50, "%"], [50, "%"]]
+        a = {"origin": _json.loads(_json.dumps(nums)), "extent": None, "padding": base.get("padding"),
+             "align": base.get("align"), "webvtt": None}
+        b = {"origin": None, "extent": _json.loads(_json.dumps(nums)), "padding": base.get("padding"),
+             "align": base.get("align"), "webvtt": None}
+        return [a, b], kind
+    part = "origin" if kind == "hash-origin" else "extent"
+    offs = hash_offsets("point" if part == "origin" else "stretch")
+    if not offs:
+        return [], kind
+    dx, dy = offs[draw(st.integers(0, len(offs) - 1))]
+    x = draw(st.integers(max(0, -dx), min(100, 100 - dx)))
+    y = draw(st.integers(max(0, -dy), min(100, 100 - dy)))
+    a = _json.loads(_json.dumps(base))
+    a["origin"] = a.get("origin") or [[10, "%"], [10, "%"]]
+    a["extent"] = a.get("extent") or [[20, "%"], [20, "%"]]
+    a[part] = [[x, "%"], [y, "%"]]
+    b = _json.loads(_json.dumps(a))
+    b[part] = [[x + dx, "%"], [y + dy, "%"]]
+    return [a, b], kind
+
+
 PREV_SET = {"langs": [{"code": "en", "layout": {"origin": [[20, "%"], [20, "%"]], "extent": [[60, "%"], [60, "%"]],
                                                   "padding": None, "align": ["center", "top"], "webvtt": None},
                        "cues": [{"start": 0, "end": 900000, "style": {}, "layout": None,
@@ -113,11 +168,16 @@ def dfxp_strategy(tier):
                         twin[part][0][0] = 1e-9
                     break
             pool = pool + [twin]
+        forced = []
+        if draw(st.integers(0, 3)) == 0:
+            # two layouts that are easily taken for one another, both used in the document
+            forced, _kind = twin_layouts(draw, pool[0])
+            pool = pool + forced
         pick = st.sampled_from(pool)
         lang_layout = draw(_opt(pick, 1))
         cues = []
-        for ci in range(draw(st.integers(1, 3))):
-            lc = draw(_opt(pick))
+        for ci in range(max(len(forced), draw(st.integers(1, 3)))):
+            lc = forced[ci] if ci < len(forced) else draw(_opt(pick))
             nodes = []
             k = 0
             for seg in range(draw(st.integers(1, 3))):
